@@ -16,10 +16,11 @@ ctest --test-dir _b -j8 --timeout 900 2>&1 | grep "tests passed\|tests failed" >
 echo "== demo with the change (expected: fail)" >> $LOG
 ( cd $SD/demo && timeout 900 bash ./run.sh $WT $WT/_b ) > $OUT/demo_with.txt 2>&1; echo "demo exit with change: $?" >> $LOG
 echo "== demo without the change (expected: pass)" >> $LOG
-git -C $WT stash -q
+git -C $WT diff > /tmp/seed_$ID.wt.diff      # (git stash is shared between worktrees: do not use it)
+git -C $WT checkout -- .
 cmake --build _b -j8 >/dev/null 2>&1
 ( cd $SD/demo && timeout 900 bash ./run.sh $WT $WT/_b ) > $OUT/demo_without.txt 2>&1; echo "demo exit without change: $?" >> $LOG
-git -C $WT stash pop -q
+git -C $WT apply /tmp/seed_$ID.wt.diff
 rm -rf $WT/_b $WT/_b_demo
 cp $SD/patch.diff $OUT/patch.diff
 rm -rf $OUT/demo; cp -r $SD/demo $OUT/demo; cp $SD/notes.md $OUT/notes.md 2>/dev/null
